@@ -1,16 +1,15 @@
 import U3.Model.Pool
 import U3.Lemmas.Pool
-/-! # C03 — a response only ever contains bytes sent in reply to its own request -/
+import U3.Lemmas.PoolProv
+/-! # C03 — a response only ever contains bytes sent in reply to its own request
+
+All theorems are about `U3.Pool.step` / `U3.Pool.run` (the definitions the driver `u3-pool` runs), for
+every history `ops : List Op` (requests with arbitrary server scripts, caller behaviours, pool
+closes), every pool size and blocking mode.  The invariant behind them is `U3.Pool.Prov`
+(`lean/U3/Lemmas/PoolProv.lean`).
+-/
 namespace U3.Props
 open U3 U3.Pool
-
-/-- the tag of a delivered byte -/
-def cellTag : Cell → Tag
-  | .hd t _ => t
-  | .body t _ => t
-
-/-- every byte delivered for response `r` was sent by the server in reaction to `r`'s own request -/
-def ownBytes (r : Resp) : Bool := r.delivered.all fun c => cellTag c == .req r.rid
 
 /-- the server's reaction to request `rid` carries that request's tag on every head and body byte,
 and `stray` on everything unsolicited (by construction of `serverCells`) -/
@@ -22,5 +21,176 @@ theorem C03_server_tags (rid : Nat) (a : Attempt) :
   · simp at hc
   · simp only [List.mem_append, List.mem_replicate, List.mem_singleton, List.mem_map] at hc
     rcases hc with ((⟨_, rfl⟩ | rfl) | ⟨v, _, rfl⟩) | ⟨v, _, rfl⟩ <;> simp [cellTag]
+
+/-- **Unconditional form.**  After any history, from any initial pool, whatever the caller did with
+earlier responses (read, partial read, early release, drain, close, drop, stream) and whatever the
+server scripts were: everything a response has delivered is a prefix of what the server sent, after
+the head, in reaction to one attempt of *that response's own request* — never a byte of another
+request's reply — and never more than the length `http.client` derived from that reply's head. -/
+theorem C03_prefix_of_own_sent (ops : List Op) (n : Nat) (block proxy : Bool) :
+    ∀ r ∈ (run (init n block proxy) ops).resps,
+      r.delivered = [] ∨
+      ∃ a h, Scripted ops r.rid a ∧ a.head = some h ∧ r.delivered <+: bodyCells r.rid a ∧
+        ∀ l, initLength h r.isHead = some l → r.delivered.length ≤ l := by
+  intro r hr
+  obtain ⟨i, hi⟩ := List.getElem?_of_mem hr
+  rcases (run_prov ops n block proxy).resp i r hi with ⟨_, h, _⟩ | ⟨a, h, fr⟩
+  · exact Or.inl h
+  · exact Or.inr ⟨a, h, fr.att, fr.head, fr.dpre, fr.dlen⟩
+
+/-- **The property as stated** (`DESIGN.md` App. E): if the server scripts call `stray` only bytes
+that lie beyond the declared end of a reply (`WellFramed`: no stray bytes, or a 1xx/204/304 reply, or
+`Content-Length ≤` the body sent — for a read-until-close reply "stray" bytes *are* body), then for
+every history every byte delivered for a response carries the tag of that response's own request,
+and the delivered bytes are a prefix of the body the server sent for one attempt of that request.
+No hypothesis on the caller: the known finding (`known_findings/C03.json`) does not produce foreign
+bytes in the model (late arrival of the rest of an abandoned body is kernel timing, DESIGN **P**); it
+violates the *second* clause of the property, see `C03_released_unread_witness`. -/
+theorem C03_prefix_of_own_reply (ops : List Op) (n : Nat) (block proxy : Bool)
+    (hfr : ∀ rid a, Scripted ops rid a → WellFramed a) :
+    ∀ r ∈ (run (init n block proxy) ops).resps,
+      ownBytes r = true ∧
+      (r.delivered = [] ∨ ∃ a, Scripted ops r.rid a ∧ r.delivered <+: a.body.map (Cell.body (.req r.rid))) := by
+  intro r hr
+  rcases C03_prefix_of_own_sent ops n block proxy r hr with h | ⟨a, h, hs, hh, hp, hl⟩
+  · exact ⟨by simp [ownBytes, h], Or.inl h⟩
+  · have := prefix_body_of_framed (hfr _ _ hs) hh hp hl
+    exact ⟨ownBytes_of_prefix this, Or.inr ⟨a, hs, this⟩⟩
+
+/-- a `Content-Length: 2` reply followed by 3 stray bytes / a 204 followed by a stray byte -/
+def strayAfterBody : Attempt :=
+  { head := some { status := 200, close := false, cl := some 2, location := false, retryAfter := false },
+    body := [1, 2], stray := [7, 7, 7] }
+def strayAfter204 : Attempt :=
+  { head := some { status := 204, close := false, cl := none, location := false, retryAfter := false }, stray := [9] }
+
+/-- non-vacuity: a history with stray bytes after a `Content-Length` reply and after a 204 satisfies
+the framing hypothesis -/
+example : ∀ rid a, Scripted [.request 0 {} (.count 2) [strayAfterBody], .dispose 0 .readAll,
+    .request 1 {} .off [strayAfter204]] rid a → WellFramed a := by
+  intro rid a ⟨rc, rt, script, hm, ha⟩
+  simp at hm
+  rcases hm with ⟨_, _, _, rfl⟩ | ⟨_, _, _, rfl⟩
+  · simp at ha; subst ha
+    exact Or.inr ⟨_, rfl, Or.inr ⟨2, rfl, by simp [strayAfterBody]⟩⟩
+  · simp at ha; subst ha
+    exact Or.inr ⟨_, rfl, Or.inl (Or.inl rfl)⟩
+
+/-- stray bytes after a body-less reply (HEAD, 1xx, 204, 304) never reach the response they follow:
+in every reachable state such a response has delivered nothing (and by `C03_prefix_of_own_sent` no
+*other* response can deliver them either: a response only delivers bytes of its own request's
+reply).  Unconditional. -/
+theorem C03_bodyless_stray_discarded (ops : List Op) (n : Nat) (block proxy : Bool) :
+    ∀ r ∈ (run (init n block proxy) ops).resps, noBody r.status r.isHead = true → r.delivered = [] := by
+  intro r hr hnb
+  obtain ⟨i, hi⟩ := List.getElem?_of_mem hr
+  rcases (run_prov ops n block proxy).resp i r hi with ⟨_, h, _⟩ | ⟨a, h, fr⟩
+  · exact h
+  · have := fr.dlen 0 (by simp [initLength, ← fr.st, hnb])
+    exact List.eq_nil_of_length_eq_zero (by omega)
+
+/-- … and under the framing hypothesis no stray byte is ever delivered to anybody -/
+theorem C03_stray_never_delivered (ops : List Op) (n : Nat) (block proxy : Bool)
+    (hfr : ∀ rid a, Scripted ops rid a → WellFramed a) :
+    ∀ r ∈ (run (init n block proxy) ops).resps, ∀ c ∈ r.delivered, cellTag c ≠ .stray := by
+  intro r hr c hc
+  have := (C03_prefix_of_own_reply ops n block proxy hfr r hr).1
+  unfold ownBytes at this
+  rw [List.all_eq_true] at this
+  have := this c hc
+  intro h; rw [h] at this; simp at this
+
+/-- **Checkout probe** (`_get_conn` + `is_connection_dropped`): if the connection on top of the queue
+has unread bytes or EOF pending on its socket `k`, checkout returns that connection *closed*, and
+whatever request is then made on it goes out on a socket that did not exist at checkout — the dirty
+socket is never used again. -/
+theorem C03_dirty_never_yields {s : State} {c k : Nat} {cn : Conn} {rest : List (Option Nat)}
+    (hopen : s.closed = false) (hq : s.queue = some c :: rest) (hc : s.conns[c]? = some cn) (hk : cn.sock = some k)
+    (hdirty : sockReadable s k = true) :
+    (getConn s).2 = .ok c ∧
+    (∀ cn', (getConn s).1.conns[c]? = some cn' → cn'.sock = none) ∧
+    ∀ rid a s2 k', connRequest (getConn s).1 c rid a = (s2, .ok k') → s.socks.length ≤ k' := by
+  have hdrop : isDropped { s with queue := rest } c = true := by
+    show isDropped { s with queue := rest } c = true
+    unfold isDropped
+    have : ({ s with queue := rest } : State).conns[c]? = some cn := hc
+    simp only [this, hk]
+    exact hdirty
+  have hg : getConn s = (connClose { s with queue := rest } c, .ok c) := by
+    unfold getConn
+    rw [if_neg (by simp [hopen])]
+    simp only [hq]
+    rw [if_pos hdrop]
+  rw [hg]
+  refine ⟨rfl, fun cn' h => connClose_sock_none _ _ _ h, ?_⟩
+  intro rid a s2 k' hcr
+  -- the connection is closed: `conn.request` has to connect
+  dsimp only at hcr
+  generalize hs1 : connClose { s with queue := rest } c = s1 at hcr
+  have hsock1 : s1.socks = s.socks := by rw [← hs1, connClose_socks]
+  have hnone : ∀ cn', s1.conns[c]? = some cn' → cn'.sock = none := by
+    intro cn' h; rw [← hs1] at h; exact connClose_sock_none _ _ _ h
+  unfold connRequest at hcr
+  obtain ⟨fr, fs, fo, fc, fn⟩ := forget_fields s1 c
+  generalize forgetClosedPending s1 c = sF at hcr fr fs fo fc fn
+  dsimp only at hcr
+  split at hcr
+  · cases hcr
+  · rename_i cnF hcnF
+    have hsF : cnF.sock = none := by
+      cases h1 : s1.conns[c]? with
+      | none => rw [fn h1] at hcnF; cases hcnF
+      | some cn1 =>
+        obtain ⟨cn'', g1, g2, _⟩ := fc cn1 h1
+        rw [g1] at hcnF; cases hcnF
+        rw [g2]; exact hnone cn1 h1
+    split at hcr
+    · cases hcr
+    · simp only [hsF] at hcr
+      unfold connect at hcr
+      cases hcon : a.connect <;> simp only [hcon] at hcr
+      · -- connected: the socket is `socks.length`
+        cases hse : sendExc a.send <;> simp only [hse] at hcr
+        · cases hcr
+          show s.socks.length ≤ (setConn sF c _).socks.length
+          simp [setConn, fs, hsock1]
+        · cases hcr
+      all_goals (cases hcr)
+
+/-- non-vacuity: a keep-alive reply followed by stray bytes, released after the declared body was
+read — the idle connection on top of the queue has unread bytes pending -/
+example :
+    let s := run (init 1 false) [.request 0 { preload := false, release := false } .off
+        [{ head := some { status := 200, close := false, cl := some 2, location := false, retryAfter := false },
+           body := [1, 2], stray := [7, 7], seg := 3 }], .dispose 0 .readAll]
+    s.closed = false ∧ s.queue = [some 0] ∧ (s.conns[0]?.map (·.sock)) = some (some 0) ∧ sockReadable s 0 = true := by
+  decide
+
+/-- the model reproduces the known finding (`known_findings/C03.json`, signature
+`dirty-connection-yielded-response:released-before-body-read`): `urlopen(preload_content=False,
+release_conn=True)` answered with `Content-Length: 9` and 3 body bytes, `response.close()`, next
+request.  The connection went back to the pool while its response was unread; `close()` then only
+closed the reader; the second request is written to and answered on the *same* socket 0 (one
+`connect`, two `send`s), although 6 declared bytes of reply 0 are still outstanding
+(`length = some 9` on the closed response) — the second clause of the property ("a connection whose
+previous exchange did not end cleanly never yields a response") is false on this tree.  The bytes
+delivered for request 1 are its own (`C03_prefix_of_own_reply` holds): the late arrival of the rest
+of reply 0 is kernel timing, outside the model. -/
+theorem C03_released_unread_witness :
+    let a0 : Attempt := { head := some { status := 200, close := false, cl := some 9, location := false, retryAfter := false },
+                          headLen := 37, body := [1, 2, 3] }
+    let a1 : Attempt := { head := some { status := 200, close := false, cl := some 5, location := false, retryAfter := false },
+                          headLen := 37, body := [11, 12, 13, 14, 15] }
+    let early : ReqCfg := { preload := false, release := true }
+    let s := run (init 1 false) [.request 0 early .off [a0], .dispose 0 .close]
+    let s' := (step s (.request 1 early .off [a1])).1
+    -- response 0 is closed with 9 declared bytes outstanding, its connection idles in the pool, connected
+    (s.resps.map fun r => (r.fp, r.length)) = [(none, some 9)] ∧ s.queue = [some 0] ∧
+    (s.conns.map (·.sock)) = [some 0] ∧
+    -- the next request is answered on the same socket: no second `connect`
+    (match (step s (.request 1 early .off [a1])).2 with | .result (.resp r) => r == 1 | _ => false) = true ∧
+    s'.log = [.connect 0, .send 0, .recv 0, .put (some 0), .send 0, .recv 0, .put (some 0)] ∧
+    (s'.resps.map (·.fp)) = [none, some 0] := by
+  decide
 
 end U3.Props
